@@ -628,10 +628,10 @@ func TestC14IntegerBoundaries(t *testing.T) {
 		}
 	}
 	entries := map[string]entry{
-		"Map.Put":                {sim.Map, nil, func(v sim.Val) sim.Call { return sim.Call{M: "Put", Key: "k", Vals: []sim.Val{v}} }, at("k")},
-		"List.Insert":            {sim.List, nil, func(v sim.Val) sim.Call { return sim.Call{M: "Insert", Pos: 0, Vals: []sim.Val{v}} }, at("List", 0)},
-		"List.Update":            {sim.List, []sim.Call{{M: "Insert", Pos: 0, Vals: []sim.Val{sim.S("x")}}}, func(v sim.Val) sim.Call { return sim.Call{M: "Update", Pos: 0, Vals: []sim.Val{v}} }, at("List", 0)},
-		"Document.PutToObject":   {sim.Document, nil, func(v sim.Val) sim.Call { return sim.Call{M: "PutToObject", Key: "k", Vals: []sim.Val{v}} }, at("k")},
+		"Map.Put":              {sim.Map, nil, func(v sim.Val) sim.Call { return sim.Call{M: "Put", Key: "k", Vals: []sim.Val{v}} }, at("k")},
+		"List.Insert":          {sim.List, nil, func(v sim.Val) sim.Call { return sim.Call{M: "Insert", Pos: 0, Vals: []sim.Val{v}} }, at("List", 0)},
+		"List.Update":          {sim.List, []sim.Call{{M: "Insert", Pos: 0, Vals: []sim.Val{sim.S("x")}}}, func(v sim.Val) sim.Call { return sim.Call{M: "Update", Pos: 0, Vals: []sim.Val{v}} }, at("List", 0)},
+		"Document.PutToObject": {sim.Document, nil, func(v sim.Val) sim.Call { return sim.Call{M: "PutToObject", Key: "k", Vals: []sim.Val{v}} }, at("k")},
 		"Document.InsertToArray": {sim.Document, []sim.Call{{M: "PutToObject", Key: "arr", Vals: []sim.Val{sim.Arr()}}}, func(v sim.Val) sim.Call {
 			return sim.Call{M: "InsertToArray", Path: []sim.Step{sim.KStep("arr")}, Pos: 0, Vals: []sim.Val{v}}
 		}, at("arr", 0)},
